@@ -2,6 +2,7 @@ package props
 
 import (
 	"fmt"
+	"go/constant"
 	"go/token"
 	"go/types"
 	"sort"
@@ -461,6 +462,7 @@ func c13(p *core.Program, r *core.Report) {
 	}, 12)
 
 	grahamPreconditionRule(p, r, "graham-scan-precondition")
+	betweenDegenerateRule(p, r, "between-degenerate-false")
 	const r4 = "fresh-arrays-fully-written"
 	r.Rule(r4, "every non-empty make([]float64, n) in the hull code is completely overwritten from input coordinates before use: it is the target of a store indexed by an element counter bounded by its own length, or by base+k with a stride-stepped loop covering [0, len) - zero-initialised slots must never be read as coordinates (they would add the point (0,0) to the hull)", 2)
 	all := strideInfo(p)
@@ -799,4 +801,67 @@ func c20(p *core.Program, r *core.Report) {
 	rdpScanRule(p, r, "candidate-scan-exhaustive")
 	rdpSingleDecisionRule(p, r, "single-decision-point")
 	r.Assume("the threshold bound on omitted points and idempotence depend on runtime numbers and are not decided beyond the clamp structure of the distance kernel")
+}
+
+// betweenDegenerateRule (C13): the hull's collinear-vertex test never says that a point lies between a point and itself.
+func betweenDegenerateRule(p *core.Program, r *core.Report, rule string) {
+	r.Rule(rule, "PREDABS: isBetween(c1, c2, c3) evaluated with c1 and c3 equal in both ordinates (every comparison of c1[k] with c3[k] folded accordingly) and the orientation predicate bound to Collinear returns the constant false whatever c2 is: when all input points are collinear the scan yields the ring A..B,A and cleanRing asks isBetween(A, B, A) - an answer that depends on B drops the far end of the line and the hull degenerates to [A, A]", 1)
+	fn := mustFn(p, r, rule, "xy", "(*convexHullCalculator).isBetween")
+	if fn == nil {
+		return
+	}
+	// the three coordinate parameters, in order
+	var cs []*ssa.Parameter
+	for _, prm := range fn.Params {
+		if isFloatSlice(prm.Type()) || isCoordType(prm.Type()) {
+			cs = append(cs, prm)
+		}
+	}
+	if len(cs) != 3 {
+		r.Lost(rule, short(fn)+"/parameters", "isBetween no longer takes three coordinates")
+		return
+	}
+	ordOf := func(v ssa.Value) (*ssa.Parameter, ssa.Value) {
+		ld, ok := v.(*ssa.UnOp)
+		if !ok || ld.Op != token.MUL {
+			return nil, nil
+		}
+		ia, ok := ld.X.(*ssa.IndexAddr)
+		if !ok {
+			return nil, nil
+		}
+		prm, _ := ia.X.(*ssa.Parameter)
+		return prm, ia.Index
+	}
+	collinear := int64(0)
+	if pkg := p.Pkg("xy/orientation"); pkg != nil {
+		if c, ok := pkg.Types.Scope().Lookup("Collinear").(*types.Const); ok {
+			collinear, _ = constant.Int64Val(c.Val())
+		}
+	}
+	ev := &eng.ConstEval{Inline: func(f *ssa.Function) bool { return false }}
+	ev.OverrideIn = func(res *eng.CEResult, v ssa.Value, args []eng.CVal) (eng.CVal, bool) {
+		switch x := v.(type) {
+		case *ssa.Call:
+			if f := x.Call.StaticCallee(); f != nil && f.Name() == "OrientationIndex" {
+				return eng.IntV(collinear), true
+			}
+		case *ssa.BinOp:
+			px, ix := ordOf(x.X)
+			py, iy := ordOf(x.Y)
+			if px == nil || py == nil || !((px == cs[0] && py == cs[2]) || (px == cs[2] && py == cs[0])) || !eng.Equiv(ix, iy) {
+				return eng.CVal{}, false
+			}
+			switch x.Op {
+			case token.EQL, token.LEQ, token.GEQ:
+				return eng.ConstV(constant.MakeBool(true)), true
+			case token.NEQ, token.LSS, token.GTR:
+				return eng.ConstV(constant.MakeBool(false)), true
+			}
+		}
+		return eng.CVal{}, false
+	}
+	top := ev.Run(fn, nil)
+	b, ok := top.Ret.Bool()
+	r.Check(ok && !b, rule, short(fn), p.Pos(fn.Pos()), true, "returns false for c1 == c3", "with c1 == c3 the result is "+top.Ret.String()+", not the constant false: isBetween(A, B, A) can report the far end B of a collinear input as lying between A and A")
 }
